@@ -2,6 +2,8 @@ package rules
 
 import (
 	"fmt"
+	"go/types"
+	"strings"
 
 	"golang.org/x/tools/go/ssa"
 
@@ -247,7 +249,11 @@ func runC21(c *Ctx) {
 	}
 	// ---- gating: every call site of a verifying/updating seam
 	c.seamGating(which)
-	// ---- LatestHeight only grows in UpdateState
+	// ---- LatestHeight never decreases: its writers are UpdateState (strictly greater only),
+	// recovery (keeper gate: subject latest < substitute latest) and upgrade (strictly greater)
+	c.latestHeightWriters(which)
+	c.recoverGate(which, "C21")
+	c.upgradeGate(which, "C21")
 	if rr := c.Run(which, tm+".ClientState.UpdateState"); rr != nil {
 		var stores []*interp.Event
 		p := c.pats(which, nil, "faddr:LatestHeight(param#0)")[0]
@@ -267,6 +273,74 @@ func runC21(c *Ctx) {
 			} else {
 				c.bad("C21/latest-height", tm+".ClientState.UpdateState", e.P.Pos(ev.Instr.Pos()), "LatestHeight is written without a strict greater-than guard against its old value")
 			}
+		}
+	}
+}
+
+// latestHeightWriters: the functions of the tendermint package that assign
+// ClientState.LatestHeight through a pointer (not on a local copy).
+func (c *Ctx) latestHeightWriters(which string) {
+	p := c.Prog(which)
+	if p == nil {
+		return
+	}
+	allowed := map[string]string{
+		tm + ".ClientState.UpdateState":                   "guarded by a strict greater-than check (C21/latest-height)",
+		tm + ".ClientState.CheckSubstituteAndUpdateState": "keeper gate: subject latest < substitute latest (recover gate)",
+	}
+	seen := map[string]bool{}
+	for key, fn := range p.Funcs {
+		if !strings.HasPrefix(key, tm+".") || fn.Blocks == nil {
+			continue
+		}
+		for _, b := range fn.Blocks {
+			for _, ins := range b.Instrs {
+				fa, ok := ins.(*ssa.FieldAddr)
+				if !ok {
+					continue
+				}
+				pt, ok := fa.X.Type().Underlying().(*types.Pointer)
+				if !ok {
+					continue
+				}
+				nt, ok := pt.Elem().(*types.Named)
+				if !ok || nt.Obj().Name() != "ClientState" || nt.Obj().Pkg() == nil || !strings.HasSuffix(nt.Obj().Pkg().Path(), "/07-tendermint") {
+					continue
+				}
+				st := nt.Underlying().(*types.Struct)
+				if st.Field(fa.Field).Name() != "LatestHeight" {
+					continue
+				}
+				if _, local := fa.X.(*ssa.Alloc); local {
+					continue // a local copy or a value under construction
+				}
+				written := false
+				for _, r := range *fa.Referrers() {
+					if s, ok := r.(*ssa.Store); ok && s.Addr == fa {
+						written = true
+					}
+					if _, ok := r.(*ssa.FieldAddr); ok {
+						written = true // a component of the height is assigned
+					}
+				}
+				if !written {
+					continue
+				}
+				top := load.FuncKey(topFn(fn))
+				if why, ok := allowed[top]; ok {
+					if !seen[top] {
+						c.ok("C21/latest-height/writers", top, p.Pos(ins.Pos()), "assigns LatestHeight: "+why)
+					}
+					seen[top] = true
+				} else {
+					c.bad("C21/latest-height/writers", top, p.Pos(ins.Pos()), "assigns ClientState.LatestHeight outside the guarded writers")
+				}
+			}
+		}
+	}
+	for k := range allowed {
+		if !seen[k] {
+			c.bad("C21/latest-height/writers", k, "", "expected writer of LatestHeight not found (table out of date)")
 		}
 	}
 }
